@@ -38,7 +38,7 @@ CACHE = os.path.join(VERIF, ".cache")
 class Undecided(Exception):
     """infrastructure problem: lost anchor, unsupported construct, identity mismatch"""
 
-_BLOCK = re.compile(r"/\*@(fn|item|include|expr)\b(.*?)@\*/", re.S)
+_BLOCK = re.compile(r"/\*@(fn|item|include|expr-after|expr)\b(.*?)@\*/", re.S)
 _ANCH = re.compile(r"<<(.*?)>>(?:\s*#(\d+))?", re.S)
 
 def parse_sections(body):
@@ -162,6 +162,31 @@ def build_item(kind, head, secs, probe, report):
                    "contracted": has_sig})
     return rsx.strip_markers(marked)
 
+def build_expr_after(head, secs, report):
+    """/*@expr-after path :: selector :: <<anchor>> #k  -- the expression following the anchor
+    tokens up to the next `,` or `;` at depth 0 (a field initialiser or a const value)."""
+    m = re.match(r"(.*?) :: (.*) :: <<(.*?)>>(?:\s*#(\d+))?\s*$", head, re.S)
+    if not m:
+        raise Undecided("bad @expr-after %r" % head)
+    path, selector, seq, k = m.group(1).strip(), m.group(2).strip(), m.group(3), int(m.group(4) or 1)
+    try:
+        it = rsx.find_item(read_src(path), path, selector)
+        w = rsx.Weaver(it)
+        i = w.find_seq(seq, k) + len(rsx.sigtext(seq))
+    except (LookupError, OSError) as e:
+        raise Undecided("lost item/anchor: %s" % e)
+    st = w.st
+    e = i
+    while e < len(st) and not (st[e].k == "p" and st[e].s in (",", ";", "}", ")", "]")):
+        if st[e].s in rsx.OPEN: e = rsx.match_close(st, e)
+        e += 1
+    text = w.text[st[i].a:st[e - 1].b]
+    l0, l1 = it.lines()
+    report.append({"path": path, "selector": selector + " :: expression after <<%s>>" % seq, "kind": "expr",
+                   "name": it.name, "lines": [l0, l1], "sha256": hashlib.sha256(text.encode()).hexdigest(),
+                   "rewrites": {}, "rx": [], "contracted": False})
+    return text
+
 def build_expr(head, secs, report):
     """/*@expr path :: selector :: <<anchor>> #k  -- extracts the condition expression of the `if`
     whose condition contains the anchor (used to slice a guard out of a large function)."""
@@ -203,6 +228,8 @@ def assemble(unit, probe=False):
             return open(os.path.join(VERIF, head.strip())).read()
         if kind == "expr":
             return build_expr(head, secs, report)
+        if kind == "expr-after":
+            return build_expr_after(head, secs, report)
         return build_item(kind, head, secs, probe, report)
     # includes may themselves contain directives: expand includes first
     for _ in range(3):
